@@ -38,6 +38,58 @@ def gen_skeleton(ch: Choices, flavour: str, opts: dict) -> dict:
                 lo, hi = 0, n - 1
             shr.append([lo, hi])
         return {"shr": shr, "idx": list(range(n)), "off": [0] * n, "props": []}
+    if flavour == "bigcircuit":
+        # 6..10 vertices: a successor vector (one cycle, or several cycles of any lengths over relabelled vertices) and
+        # narrow intervals around it, so that the search space stays enumerable while the path bookkeeping of the
+        # sub-cycle / connectivity constraints meets long paths merged in every index order
+        n = 6 + ch.choose(5, "bc.n")
+        labels = ch.shuffle(list(range(n)), "bc.labels")
+        cuts = []
+        if not ch.chance(1, 3, "bc.hamiltonian"):
+            k = 1 + ch.choose(3, "bc.ncuts")
+            cuts = sorted(set(2 + ch.choose(n - 3, "bc.cut") for _ in range(k)))
+            cuts = [x for i, x in enumerate(cuts) if x <= n - 2 and (i == 0 or x - cuts[i - 1] >= 2)]
+        succ = [0] * n
+        start = 0
+        for end in cuts + [n]:
+            cyc = labels[start:end]
+            for a, b in zip(cyc, cyc[1:] + cyc[:1]):
+                succ[a] = b
+            start = end
+        shr = []
+        for i in range(n):
+            a = [0, 0, 1, 2][ch.choose(4, "bc.below")]
+            b = [0, 0, 1, 2][ch.choose(4, "bc.above")]
+            shr.append([max(0, succ[i] - a), min(n - 1, succ[i] + b)])
+        while space_size(shr) > max_space:
+            j = max(range(n), key=lambda i: shr[i][1] - shr[i][0])
+            if shr[j][1] > succ[j]:
+                shr[j][1] -= 1
+            else:
+                shr[j][0] += 1
+        return {"shr": shr, "idx": list(range(n)), "off": [0] * n, "props": []}
+    if flavour == "wide":
+        # many shared domains of 1-3 values: long constraints on an enumerable space
+        nshr = 5 + ch.choose(6, "wide.nshr")
+        shr = []
+        for i in range(nshr):
+            size = [1, 2, 2, 3, 2][ch.choose(5, f"w{i}.size")]
+            lo = LOWS[ch.choose(len(LOWS), f"w{i}.lo")]
+            if opts.get("nonneg"):
+                lo = abs(lo)
+            shr.append([lo, lo + size - 1])
+        while space_size(shr) > max_space:
+            j = max(range(nshr), key=lambda i: shr[i][1] - shr[i][0])
+            shr[j][1] -= 1
+        idx = list(range(nshr))
+        off = [0] * nshr
+        for j in range(ch.choose(3, "wide.nextra")):
+            idx.append(ch.choose(nshr, f"x{j}.dom"))
+            o = OFFS[ch.choose(len(OFFS), f"x{j}.off")]
+            if opts.get("nonneg") and shr[idx[-1]][0] + o < 0:
+                o = 0
+            off.append(o)
+        return {"shr": shr, "idx": idx, "off": off, "props": []}
     nshr = 1 + ch.choose(opts.get("max_shr", 4), "nshr")
     shr = []
     for i in range(nshr):
@@ -95,6 +147,8 @@ def gen_constraint(ch: Choices, model: dict, alg: str, opts: dict) -> Optional[l
     rng = lambda v: var_range(model, v)
 
     def arity(lo, hi):
+        if opts.get("stretch"):
+            hi = max(hi, opts["stretch"])  # wide models: every constraint type may span many variables
         hi = min(hi, opts.get("max_arity", 4))
         if not alias:
             hi = min(hi, nv)
@@ -171,7 +225,7 @@ def gen_constraint(ch: Choices, model: dict, alg: str, opts: dict) -> Optional[l
             return None
         return [pick_vars(ch, model, n, alias), alg, []]
     if alg == "lexicographic_leq":
-        half = 1 + ch.choose(3, "half")
+        half = 1 + ch.choose(max(3, opts.get("stretch", 0) // 2), "half")
         while half > 1 and not alias and 2 * half > nv:
             half -= 1
         if not alias and nv < 2:
@@ -246,13 +300,18 @@ def gen_model(ch: Choices, opts: Optional[dict] = None) -> dict:
         m["flavour"] = fl
         m["padded"] = pad
         return m
-    fl = ch.weighted(opts.get("flavour_weights", [8, 2, 2]), "flavour")
-    flavour = ["general", "bool", "circuit"][fl]
+    fl = ch.weighted(opts.get("flavour_weights", [16, 4, 4, 1, 1]), "flavour")
+    flavour = ["general", "bool", "circuit", "bigcircuit", "wide"][fl]
     if opts.get("nonneg") is None and ch.chance(1, 4, "nonneg"):
         opts["nonneg"] = True
+    if flavour == "wide":
+        opts["max_arity"] = max(opts.get("max_arity", 4), 10)
+        opts["stretch"] = 4 + ch.choose(5, "wide.stretch")
     model = gen_skeleton(ch, flavour, opts)
     model["flavour"] = flavour
     types = opts.get("types")
+    if flavour == "bigcircuit":
+        flavour = "circuit"
     if flavour == "circuit":
         n = len(model["shr"])
         vs = list(range(n))
